@@ -575,3 +575,17 @@ def run_lines_resilient(exe, lines, timeout=900, env=None, max_deaths=5):
         deaths.append((start + n, rc, err[-300:]))
         start = start + n + 1
     return outs, deaths
+
+
+def coqchk(check, modules, timeout=1800):
+    """thorough tier: re-check the compiled closure of the property files with the stand-alone
+    checker; anything other than 'Axioms: <none>' etc. is recorded as broken."""
+    with Lock("coq"):
+        rc, out = run(["coqchk", "-silent", "-o", "-Q", "theories", "PP"] + list(modules), cwd=COQ, timeout=timeout)
+    text = out.decode("utf-8", "replace")
+    ok = rc == 0 and "Axioms: <none>" in text and "type-in-type: <none>" in text and "unsafe (co)fixpoints: <none>" in text
+    check.cov["coqchk"] = "ok: " + " ".join(text.split())[-300:] if ok else "FAILED: " + text[-600:]
+    check.cov["trusted_base"].append("coqchk -o over " + " ".join(modules) + (": Axioms <none>" if ok else ": FAILED"))
+    if not ok:
+        check.broken.append("coqchk failed on %s: %s" % (" ".join(modules), text[-400:]))
+    return ok
